@@ -961,3 +961,127 @@ func orNone(s string) string {
 	}
 	return s
 }
+
+// ---- C05.R7 whitespace skippers skip exactly the four JSON whitespace bytes ----
+
+// Every function named skipWhiteSpace (decoder buffer mode, decoder stream mode, encoder
+// compact/indent) advances the cursor for a set of byte values; that set is computed for
+// all 256 values from the table test or the case labels that guard the advance.
+func c05r7(rc *core.RC) {
+	p := rc.P
+	n := 0
+	for _, short := range []string{"decoder", "encoder"} {
+		for _, fd := range p.Funcs(short) {
+			if fd.Body == nil || fd.Name.Name != "skipWhiteSpace" {
+				continue
+			}
+			info := p.Info(fd)
+			fn := p.FuncName(fd)
+			rc.Touch(fn)
+			n++
+			key := fn + "/skipped-bytes"
+			bp := &core.BytePred{P: p}
+			var skipped [256]bool
+			decided := false
+			advances := func(nd ast.Node) bool {
+				found := false
+				ast.Inspect(nd, func(k ast.Node) bool {
+					switch x := k.(type) {
+					case *ast.IncDecStmt:
+						if x.Tok == token.INC && strings.Contains(strings.ToLower(core.Src(p.Fset, x.X)), "cursor") {
+							found = true
+						}
+					}
+					return true
+				})
+				return found
+			}
+			// the byte read inside an expression: replace it by a bound variable by evaluating the table directly
+			tableOf := func(e ast.Expr) *core.Table {
+				ix, ok := core.Unparen(e).(*ast.IndexExpr)
+				if !ok {
+					return nil
+				}
+				o := core.ObjOf(info, ix.X)
+				if o == nil || o.Pkg() == nil || o.Parent() != o.Pkg().Scope() {
+					return nil
+				}
+				for _, pk := range p.All {
+					if pk.Types == o.Pkg() {
+						return core.EvalTable(pk, o.Name())
+					}
+				}
+				return nil
+			}
+			_ = bp
+			ast.Inspect(fd.Body, func(m ast.Node) bool {
+				if decided {
+					return false
+				}
+				switch x := m.(type) {
+				case *ast.ForStmt:
+					if x.Cond != nil && advances(x.Body) {
+						if t := tableOf(x.Cond); t != nil && !t.Opaque {
+							for b := 0; b < 256; b++ {
+								skipped[b] = t.Bool(b)
+							}
+							decided = true
+						}
+					}
+				case *ast.IfStmt:
+					if advances(x.Body) {
+						if t := tableOf(x.Cond); t != nil && !t.Opaque {
+							for b := 0; b < 256; b++ {
+								skipped[b] = t.Bool(b)
+							}
+							decided = true
+						}
+					}
+				case *ast.SwitchStmt:
+					bs, _ := core.EvalByteSwitch(info, x)
+					if bs == nil {
+						return true
+					}
+					any := false
+					for ci, cc := range bs.Clauses {
+						if cc == nil || !advances(cc) {
+							continue
+						}
+						for _, b := range bs.Labels[ci] {
+							if b >= 0 && b < 256 {
+								skipped[b] = true
+								any = true
+							}
+						}
+					}
+					if any {
+						decided = true
+					}
+				}
+				return true
+			})
+			if !decided {
+				rc.Unknown(key, fd.Pos(), "neither a table test nor a byte switch guarding `cursor++` was recognised")
+				continue
+			}
+			var extra, missing []int
+			for b := 0; b < 256; b++ {
+				ws := b == ' ' || b == '\t' || b == '\n' || b == '\r'
+				if skipped[b] && !ws {
+					extra = append(extra, b)
+				}
+				if !skipped[b] && ws {
+					missing = append(missing, b)
+				}
+			}
+			if len(extra) == 0 && len(missing) == 0 {
+				rc.OK(key, fd.Pos(), "skips exactly space, tab, line feed and carriage return (all 256 byte values evaluated)")
+			} else {
+				rc.Bad(key, fd.Pos(), "skips %s besides the JSON whitespace and does not skip %s: texts with that byte between tokens are rejected (or garbage is accepted) here while the value dispatchers keep their own whitespace cases", orNone(core.FmtBytes(extra)), orNone(core.FmtBytes(missing)))
+			}
+		}
+	}
+	if n < 3 {
+		rc.Unknown("skipWhiteSpace/functions", token.NoPos, "found %d functions named skipWhiteSpace (decoder buffer, decoder stream, encoder expected)", n)
+	}
+}
